@@ -21,11 +21,12 @@ KEY_ORDER = ["alias", "exact", "origin"]
 LEVELS = ["fopt", "fstrat", "calld", "cfgd", "cfgss", "fmtd"]
 KEYSETS = [ks for r in (1, 2, 3) for ks in itertools.combinations(KEY_ORDER, r)]
 FORMS = ["dict", "strategy", "pass_through"]
+SPLIT_SLOTS = ["fstrat", "calld:exact", "cfgd:alias", "cfgd:exact", "cfgss:exact", "cfgss:origin", "fmtd:exact", "fmtd:alias"]
 
 
 def bounds(tier):
     return dict(tier=tier, levels=LEVELS, keys=KEY_ORDER, keysets=len(KEYSETS), forms=FORMS,
-                entry_points=["mixin(+call dialect)", "basic codec(+default_dialect)", "orjson mixin"], directions=2)
+                one_direction_slots=SPLIT_SLOTS if tier == "thorough" else SPLIT_SLOTS[:7], entry_points=["mixin(+call dialect)", "basic codec(+default_dialect)", "orjson mixin"], directions=2)
 
 
 def units(tier):
@@ -36,6 +37,14 @@ def units(tier):
                 continue    # no entry point takes both a call dialect and a codec default_dialect
             for form in FORMS:
                 out.append(("list", fopt, fstrat, ks4, form))
+    # one-direction dict registrations: every slot is absent, serialize-only, deserialize-only or both
+    slots = SPLIT_SLOTS if tier == "thorough" else SPLIT_SLOTS[:7]
+    for fopt in ((0, 1, 2, 3) if tier == "thorough" else (0,)):
+        for masks in itertools.product((0, 1, 2, 3), repeat=len(slots)):
+            present = {sl.split(":")[0] for sl, m in zip(slots, masks) if m}
+            if "calld" in present and "fmtd" in present:
+                continue
+            out.append(("split", fopt, 0, masks, "dict"))
     okeys = [None, ("alias",), ("exact",), ("alias", "exact")]
     for fopt, fstrat in itertools.product((0, 1), repeat=2):
         for ks3 in itertools.product(okeys, repeat=3):
@@ -54,6 +63,8 @@ def run_unit(unit, only=None):
 
     family, fopt, fstrat, ks4, form = unit
     res = core.UnitResult()
+    if family == "split":
+        return run_split(unit, res)
 
     class Strat(SerializationStrategy):
         def __init__(self, m):
@@ -178,7 +189,100 @@ def run_unit(unit, only=None):
     return res
 
 
+def run_split(unit, res):
+    """Registrations that customize one direction only: per direction, the most specific registration DEFINING it applies."""
+    from mashumaro import DataClassDictMixin
+    from mashumaro.codecs.basic import BasicDecoder, BasicEncoder
+    from mashumaro.config import ADD_DIALECT_SUPPORT, BaseConfig
+    from mashumaro.dialect import Dialect
+    _, fopt, _, masks, _ = unit
+    Ann = Annotated[List[int], "tag"]
+    KEYS = {"alias": Ann, "exact": List[int], "origin": list}
+    value, wire = [1], [1]
+
+    def dct(marker, m):
+        d = {}
+        if m & 1:
+            d["serialize"] = lambda v, mk=marker: ("S", mk)
+        if m & 2:
+            d["deserialize"] = lambda v, mk=marker: ("D", mk)
+        return d
+    cand = []      # (rank, marker, mask)
+    meta = {}
+    if fopt & 1:
+        meta["serialize"] = lambda v: ("S", "fopt")
+    if fopt & 2:
+        meta["deserialize"] = lambda v: ("D", "fopt")
+    if fopt:
+        cand.append(((0, 0, 0), "fopt", fopt))
+    per_level = {"calld": {}, "cfgd": {}, "cfgss": {}, "fmtd": {}}
+    for sl, m in zip(SPLIT_SLOTS, masks):
+        if not m:
+            continue
+        if sl == "fstrat":
+            meta["serialization_strategy"] = dct("fstrat", m)
+            cand.append(((1, 0, 0), "fstrat", m))
+        else:
+            lv, k = sl.split(":")
+            per_level[lv][KEYS[k]] = dct(sl, m)
+            cand.append(((2, KEY_ORDER.index(k), LEVELS.index(lv)), sl, m))
+    want = {}
+    for bit, dname in ((1, "serialize"), (2, "deserialize")):
+        c = [x for x in cand if x[2] & bit]
+        want[dname] = min(c)[1] if c else None
+    cfg = {"code_generation_options": [ADD_DIALECT_SUPPORT]}
+    calld = fmtd = None
+    if per_level["calld"]:
+        calld = type("CD", (Dialect,), {"serialization_strategy": per_level["calld"]})
+    if per_level["cfgd"]:
+        cfg["dialect"] = type("GD", (Dialect,), {"serialization_strategy": per_level["cfgd"]})
+    if per_level["cfgss"]:
+        cfg["serialization_strategy"] = per_level["cfgss"]
+    if per_level["fmtd"]:
+        fmtd = type("FD", (Dialect,), {"serialization_strategy": per_level["fmtd"]})
+    with space.Ctx() as ctx:
+        Cfg = type("Config", (BaseConfig,), cfg)
+        results = {}
+        try:
+            if fmtd is None:
+                cls = make_dataclass("M", [("x", Ann, field(metadata=meta))], bases=(DataClassDictMixin,),
+                                     namespace={"Config": Cfg, "__module__": ctx.modname})
+                ctx.ns["M"] = cls
+                kw = {"dialect": calld} if calld else {}
+                results["mixin"] = (cls(list(value)).to_dict(**kw)["x"], cls.from_dict({"x": list(wire)}, **kw).x)
+            if calld is None:
+                pl = make_dataclass("P", [("x", Ann, field(metadata=meta))], namespace={"Config": Cfg, "__module__": ctx.modname})
+                ctx.ns["P"] = pl
+                kw = {"default_dialect": fmtd} if fmtd else {}
+                results["codec"] = (BasicEncoder(pl, **kw).encode(pl(list(value)))["x"], BasicDecoder(pl, **kw).decode({"x": list(wire)}).x)
+        except Exception as e:   # noqa: BLE001
+            res.cases += 1
+            res.violation(f"raised|{unit}", "raised", type(e).__name__, dict(unit=unit), repr(e)[:300])
+            return res
+        for ep, (s_, d_) in results.items():
+            res.cases += 2
+            res.transitions += 4
+            for direction, got, dflt, tag in (("serialize", s_, wire, "S"), ("deserialize", d_, value, "D")):
+                w = want[direction]
+                ok = got == dflt if w is None else got == (tag, w)
+                if not ok:
+                    res.outcomes["neq"] += 1
+                    res.violation(f"winner-neq|{unit}|{ep}|{direction}", "winner-neq", "neq", dict(unit=unit, entry=ep, direction=direction),
+                                  f"one-direction registrations {[(m, k) for _, m, k in cand]} (1=serialize 2=deserialize 3=both): "
+                                  f"want={w} got={got!r:.200}")
+                else:
+                    res.outcomes["ok"] += 1
+                    if len(cand) >= 2:
+                        res.nontrivial += 1
+            if len(res.samples) < 1 and len(cand) >= 3 and want["serialize"] != want["deserialize"]:
+                res.sample(dict(family="split", registrations=[(m, k) for _, m, k in cand], winners=want, entry=ep, serialized=repr(s_)[:60]))
+    res.states += 1
+    return res
+
+
 def replay(case):
     u = core.detuple(case["unit"])
+    if u[0] == "split":
+        return run_split((u[0], u[1], u[2], tuple(u[3]), u[4]), core.UnitResult()).violations
     unit = (u[0], u[1], u[2], tuple(None if k is None else tuple(k) for k in u[3]), u[4])
     return run_unit(unit).violations
